@@ -81,7 +81,10 @@ def run(ctx):
             case = dict(dp, calls=[call])
             check_log(ctx, bd, dp["defs"], case, stats)
             if out[0] == "exc" and not str(out[1]).startswith("TypeError:f()"):
-                ctx.violation(f"an internal exception escaped: {out}", case)
+                # C01 speaks about the bodies that ran (check_log above); a call that ends in an internal exception
+                # (e.g. graphlib.CycleError, KF-23, C06's subject) enters no body with excluded arguments: counted, not alarmed
+                stats.setdefault("calls_ending_in_other_exception", {}).setdefault(str(out[1])[:40], 0)
+                stats["calls_ending_in_other_exception"][str(out[1])[:40]] += 1
             distinct.add(hash(json.dumps([dp["defs"], call, dp["utab"]])))
         if len(samples) < 2:
             samples.append({"static_defs": prog["defs"][:2], "dependent_defs": dp["defs"][:2]})
@@ -94,7 +97,32 @@ def run(ctx):
 
 
 def replay(ctx, payload):
-    return True
+    """re-run the recorded program on the implementation: reproduced iff some body is again entered with arguments its
+    annotations exclude (or, for a correspondence replay, the first body entered again differs from the model)"""
+    case = payload["case"]
+    stats = collections.Counter()
+    before = len(ctx.violations)
+    w = world_from(case["spec"])
+    if "utab" in case:          # dependent program
+        b = progs.Built(w, case["defs"], utab=case["utab"])
+        for call in case["calls"]:
+            b.call([dec_val(e, w) for e in call["vals"]])
+            check_log(ctx, b, case["defs"], case, stats)
+    else:
+        b = progs.Built(w, case["defs"])
+        mms = R.model_defs(case["defs"])
+        keys = [R.call_key(c) for c in case["calls"]]
+        mres = model.run_cases([[10, w.encode(), mms, [[0, k] for k in keys]]])[0]
+        for call, mo in zip(case["calls"], mres):
+            pos = [w.instance(c) for c in call["pos"]]
+            kw = {f"k{k}": w.instance(c) for k, c in call["kw"].items()}
+            out, entered = b.call(pos, kw)
+            check_log(ctx, b, case["defs"], case, stats)
+            m = progs.dec_outcome(mo)
+            first = ["run", entered[0]] if entered else R.normalise(out, case["defs"], call)
+            if first != m and not (m[0] != "run" and first[0] != "run" and R.normalise(out, case["defs"], call) == m):
+                ctx.violation(f"first method entered {first} != model's lookup {m}", case, kind="correspondence")
+    return len(ctx.violations) > before
 
 
 def replay_finding(ctx, e):
